@@ -494,6 +494,11 @@ impl Module {
             // Mutate the existing export to use the new local function
             let export = self.exports.get_mut(original_export_id);
             export.item = ExportItem::Function(new_fn_id);
+
+            // The export may have been the only thing that declared the
+            // original function for `ref.func` instructions elsewhere in the
+            // module.
+            crate::passes::gc::declare_referenced_funcs(self);
             Ok(new_fn_id)
         } else {
             bail!("cannot replace function [{fid:?}], it is not an exported function");
